@@ -204,7 +204,7 @@ async fn world(ctx: &mut Ctx) {
         ctx.op(format!("produce height={height} time={} cands={}", sim.time, cands.len()));
         let parent_dump = dump_on_chain(p.db.on_chain());
         let res = producer
-            .produce_and_execute_block_txpool(height.into(), Tai64(sim.time), ())
+            .produce_and_execute_block_txpool(height.into(), Tai64::from_unix(sim.time as i64), ())
             .await;
         let uncommitted = match res {
             Ok(r) => r,
